@@ -62,16 +62,15 @@ def wave_operand_bits(repo: Repo):
     weights = {}
     for b in bodies:
         w = None
-        idxs = set()
+        letter = None
         for st in b:
             if isinstance(st, ast.AugAssign) and is_name(st.target, 'inputs') and isinstance(st.op, ast.BitXor) and isinstance(st.value, ast.Constant):
                 w = st.value.value
-            for n in ast.walk(st):
-                if isinstance(n, ast.Name) and n.id in col_of and n.id.endswith('_idx'):
-                    idxs.add(n.id)
-        if w is None or len(idxs) != 1:
-            raise ModelError(f'_wave_eval: operand arm does not toggle exactly one input bit / uses one operand: {sorted(idxs)}')
-        weights[col_of[idxs.pop()]] = w
+            if isinstance(st, ast.AugAssign) and isinstance(st.target, ast.Name) and st.target.id.endswith('_cur') and st.target.id != 'z_cur':
+                letter = st.target.id[:-4]
+        if w is None or letter is None or f'{letter}_idx' not in col_of:
+            raise ModelError('_wave_eval: operand arm does not advance one operand cursor and toggle one input bit')
+        weights[col_of[f'{letter}_idx']] = w
     lut_col = col_of.get('lut')
     z_col = col_of.get('z_idx')
     return weights, lut_col, z_col, col_of
